@@ -2012,6 +2012,10 @@ func (ts *TokenStore) revokeInternal(ctx context.Context, saltedID string, skipO
 	// we do another lookup here to make sure we have the right state
 	entry, err := ts.lookupInternal(ctx, saltedID, true, true)
 	if err != nil {
+		// We did not get anywhere; clear the revocation state so that the
+		// next call retries instead of short-circuiting on a revocation
+		// that is not actually in progress.
+		ts.tokensPendingDeletion.Store(saltedID, false)
 		return err
 	}
 	if entry == nil {
